@@ -388,3 +388,8 @@ def chk_est(inp, c):
 
 
 M.add("estimator_capture", gen_est, chk_est, weight=2, min_held=100)
+
+
+# the repository's own tests as one more workload: contracts armed in situ (harness/observe.py)
+from harness import observe as _observe  # noqa: E402
+_observe.add_insitu_clause(M, ['capture.calculate_capture'], runtime)
